@@ -22,7 +22,7 @@ META = {
             "List, Tuple alias, NDArray, NewType, Union, enum by value and by name (unknown names refused), Optional[enum]; a real "
             "section of the operator card (Configs) goes from_dict -> raw unchanged for variants that differ in falsy and optional "
             "fields and with a defaulted field omitted; every annotation used by the cards and the metadata is of a kind the loader "
-            "handles. (3) XGRID: XGrid.load(x.dump()) returns grid and flag for logarithmic and linear grids; the raw form used by "
+            "handles; two serialisations of one value share no list / dict with each other nor with the value (rule raw-forms-are-fresh-data). (3) XGRID: XGrid.load(x.dump()) returns grid and flag for logarithmic and linear grids; the raw form used by "
             "the cards is followed through load_field: the grid survives, the logarithmic flag does not (known finding). (4) "
             "DECLARED = USED: commons.interpolator is partially evaluated with a symbolic card: the dispatcher is built from the "
             "card's grid, interpolation_is_log and polynomial degree; every field of the cards is read somewhere in the runner's "
@@ -70,6 +70,17 @@ def run(chk):
     if not bad:
         chk.ok("normaliser-yields-plain-data", frf.qname, f"{len(ks)} value kinds", how="PE of raw_field on a representative of every kind")
     chk.floor("value kinds", len(ks), 200)
+    stale = {}
+    for k in ks:
+        ok, why = judge.fresh(k)
+        if not ok:
+            stale.setdefault(why, []).append(k)
+    for why, lst in stale.items():
+        lst.sort(key=lambda k: len(fmt(k)))
+        chk.fail("raw-forms-are-fresh-data", frf.qname, f"raw_field({fmt(lst[0])}): {why} ({len(lst)} kinds, e.g. {[fmt(x) for x in lst[:4]]}): after such an "
+                 f"edit the raw form no longer loads back to the object", where=frf.where, instance=fmt(lst[0]))
+    if not stale:
+        chk.ok("raw-forms-are-fresh-data", frf.qname, f"{len(ks)} value kinds serialised twice", how="PE of raw_field, identity of the containers")
     # ---- (2) reader table -----------------------------------------------------------------------------------------------------
     flf = src.func(f"{DL}.load_field")
     flt = src.func(f"{DL}.load_typing")
@@ -483,6 +494,36 @@ def _plainness_by_evaluation(src):
         walk(r)
         return (not bad), (f"the result still contains a {bad[0]}" if bad else "plain")
 
+    def containers(x, acc):
+        if isinstance(x, (list, dict)):
+            acc[id(x)] = x
+            for e in (x.values() if isinstance(x, dict) else x):
+                containers(e, acc)
+        elif isinstance(x, tuple):
+            for e in x:
+                containers(e, acc)
+        elif isinstance(x, Obj):
+            for e in x.attrs.values():
+                containers(e, acc)
+        return acc
+
+    def fresh(k):
+        """two serialisations of ONE value share no list / dict with each other nor with the value: a raw form is handed out to be
+        edited (derive a variant card, pop a key), and that must change neither the object nor what it serialises to later"""
+        v = make(k)
+        try:
+            r1 = pe.call(f"{DL}.raw_field", [v])
+            r2 = pe.call(f"{DL}.raw_field", [v])
+        except PERaise:
+            return True, ""
+        c1, c2, cv = containers(r1, {}), containers(r2, {}), containers(v, {})
+        if set(c1) & set(c2):
+            return False, "two serialisations of the same object return the SAME list/dict object (an edit of the first raw form changes the second)"
+        if (set(c1) | set(c2)) & set(cv):
+            return False, "the serialised form contains a list/dict of the object itself, un-copied"
+        return True, ""
+
+    judge.fresh = fresh
     return judge
 
 
